@@ -34,7 +34,7 @@ func c05strs(label string, maxN int) []string {
 	n := verif_Choose(label+"Count", 0, maxN)
 	out := make([]string, n)
 	for i := range out {
-		out[i] = verif_Str(label, verif_Choose(label+"Len", verif_Tier()^1, 1+verif_Tier()))
+		out[i] = verif_Str(label, verif_Choose(label+"Len", 1, 1+verif_Tier()))
 	}
 	return out
 }
